@@ -261,3 +261,49 @@ def run_retrans(run, P):
         run.oblige('R-RETRANS', False, 'gate-present')
         run.violation('R-RETRANS', 'coap_retransmit', f['loc'], 'no-retransmit-limit', 'retransmit_cnt is never compared with max_retransmit: retransmission never stops')
     run.require(seen['send'] > 0 or not seen['gate'], 'R-RETRANS: coap_send_pdu is not called from coap_retransmit any more')
+
+
+def run_queue_key(run, P):
+    """R-QUEUE-KEY: coap_remove_from_queue identifies a message by (session, message id): every path that hands a node
+    out through the out-parameter holds BOTH `session == X->session` and `id == X->id` for that node X."""
+    run.rule('R-QUEUE-KEY')
+    fname = 'coap_remove_from_queue'
+    if not P.has(fname):
+        if run.fixture_mode:
+            return
+        run.require(False, 'anchor function %s() not found' % fname)
+    f = P.func(fname)
+    ids = dict((p['n'], 'v%d' % p['id']) for p in f['params'])
+    run.require('session' in ids and 'id' in ids and 'node' in ids, 'R-QUEUE-KEY: parameters session/id/node of %s() not found' % fname)
+    S, I, N = ids['session'], ids['id'], ids['node']
+    n = [0]
+
+    def holds(env, x, pa, fld):
+        """is `param == x->fld` known on this path"""
+        want = x + '->' + fld
+        for ak, av in env.atoms.items():
+            if pa in ak and want in ak:
+                if ('==' in ak and av is True) or ('!=' in ak and av is False):
+                    return True
+        return False
+
+    def on_event(ev, env, ctx):
+        t = ev['e']
+        if t.get('k') == 'asg' and t.get('op') == '=':
+            l = strip(t['l'])
+            if isinstance(l, dict) and l.get('k') == 'un' and l.get('op') == '*' and ap(l['e']) == N:
+                x = ap(t['r'])
+                if x is None:
+                    return None
+                n[0] += 1
+                run.instance('R-QUEUE-KEY', '%s: *node = %s' % (fname, short(t['r'])))
+                ks, ki = holds(env, x, S, 'session'), holds(env, x, I, 'id')
+                ok = ks and ki
+                run.oblige('R-QUEUE-KEY', ok, '%s:both-keys:%s' % (fname, short(t['r'])))
+                if not ok:
+                    run.violation('R-QUEUE-KEY', fname, ev['loc'], 'partial-key:%s' % short(t['r']),
+                                  'a node is taken out of the send queue on a path where %s is not known to hold: an ACK/RST for one message can retire a different '
+                                  'Confirmable (which is then never retransmitted nor NACKed)' % (' and '.join(w for w, k in (('session == node->session', ks), ('id == node->id', ki)) if not k)), ctx.path())
+        return None
+    solve(f, Env(), on_event, None, None, None, key_fn=lambda e: tuple(sorted((k, v) for k, v in e.atoms.items() if S in k or I in k)), max_envs=128)
+    run.require(n[0] >= 1, 'R-QUEUE-KEY: no store through the out-parameter found in %s()' % fname)
